@@ -554,8 +554,17 @@ class TpcFinish(ConnSpec):
             ]
 
         def post_fail(cc, E, x):
+            # the transaction machinery calls tpc_abort next: it needs _creating/_modified/_added intact
             u0, u1 = E.old[w.objects.id], U(cc, w)
-            return [('nothing-touched', All(['obj'], lambda x_: unchanged(u0, u1, x_)))]
+            S0, S1 = E.old[w.self.id], cc.obj(w.self).f
+            cr0, cr1 = E.old[w.creating.id], cc.obj(w.creating).f
+            return [('nothing-touched', All(['obj'], lambda x_: unchanged(u0, u1, x_))),
+                    ('creating-set-kept-for-the-abort-that-follows',
+                     isinstance(S1['_creating'], VRef) and S1['_creating'].id == w.creating.id
+                     and cr1['dom'] is cr0['dom']),
+                    ('join-state-and-registered-list-kept', z3.And(
+                        contract.same_value(cc, S0['_needs_to_join'], S1['_needs_to_join']),
+                        contract.same_value(cc, S0['_registered_objects'], S1['_registered_objects'])))]
         return [Outcome('ok', result=lambda cc, E: NONE, post=post),
                 Outcome('storage-failed', 'raise', 'builtins:Exception', post=post_fail)]
 
@@ -1158,6 +1167,59 @@ class CommitSavepointBody(ConnSpec):
                         post=lambda cc, E, x: self.bookkeeping(cc, E))]
 
 
+class AbortSavepoint(ConnSpec):
+    """Connection._abort_savepoint: every object created in a savepoint (filed in the cache) is disowned
+    and leaves the cache, every other cached object with a record in the savepoint storage becomes a
+    ghost, the connection is back on its real storage and the savepoint storage is closed"""
+    func = CONN + '._abort_savepoint'
+    props = ('C12', 'C11')
+
+    def setup(self, c, case=None):
+        w = CM.mk_conn(c)
+        mk_tmpstore(c, w)
+        return {'self': w.self}
+
+    def requires(self, c, E):
+        return conninv(c, world(c), only=('CACHE-INV', 'OID-INJ', 'OID-RANGE'))
+
+    def hooks(self, c):
+        hk = ConnSpec.hooks(self, c)
+        install_tmpstore_hooks(c, hk)
+        return hk
+
+    def modifies(self, c, E):
+        w = world(c)
+        return self.universe_mods(c) | {(w.cache.id, 'dom'), (w.self.id, '_storage'),
+                                        (w.self.id, '_savepoint_storage'), (w.src.id, '_closed')}
+
+    def outcomes(self, c, E):
+        w = world(c)
+
+        def post(cc, E, r):
+            u0, u1 = E.old[w.objects.id], U(cc, w)
+            cache0, cache1 = E.old[w.cache.id], cc.obj(w.cache).f
+            idx0, cr0 = E.old[w.sp_index.id], E.old[w.sp_creating.id]
+            oid0 = lambda x: sel(u0['oid'], x)
+            created = lambda x: z3.And(cached(u0, cache0, x), sel(cr0['dom'], oid0(x)))
+            stored = lambda x: z3.And(cached(u0, cache0, x), sel(idx0['dom'], oid0(x)))
+            S = cc.obj(w.self).f
+            closed = cc.obj(w.src).f['_closed']
+            return [
+                ('objects-created-in-savepoints-belong-to-no-database', All(['obj'], lambda x: z3.Implies(
+                    created(x), not_owned(u0, u1, x)))),
+                ('objects-stored-in-savepoints-are-ghosts', All(['obj'], lambda x: z3.Implies(
+                    z3.And(z3.Not(created(x)), stored(x)), ghostified(u0, u1, x)))),
+                ('every-other-object-untouched', All(['obj'], lambda x: z3.Implies(
+                    z3.And(z3.Not(created(x)), z3.Not(stored(x))), unchanged(u0, u1, x)))),
+                ('created-objects-leave-the-cache', All(['oid'], lambda o: sel(cache1['dom'], o) == z3.And(
+                    sel(cache0['dom'], o), z3.Not(sel(cr0['dom'], o))))),
+                ('back-on-the-real-storage', isinstance(S['_storage'], VRef) and S['_storage'].id == w.storage.id
+                 and isinstance(S['_savepoint_storage'], VNone)),
+                ('savepoint-storage-closed', isinstance(closed, VBool) and as_z3_bool(closed.t)),
+            ]
+        return [Outcome('ok', result=lambda cc, E: NONE, post=post)]
+
+
 class Add(ConnSpec):
     """Connection.add: decision table over (connection open?, object's jar)"""
     func = CONN + '.add'
@@ -1216,6 +1278,7 @@ class Add(ConnSpec):
 
 
 SPECS = [InvalidateCreating, TpcCleanup, AbortRegistered, Abort, TpcAbort, TpcFinish, Register_, Register,
-         Add_, Add, Close, Commit_, Savepoint, CommitSavepoint, Commit, TpcVote, RollbackSavepoint]
+         Add_, Add, Close, Commit_, Savepoint, CommitSavepoint, Commit, TpcVote, RollbackSavepoint,
+         AbortSavepoint]
 VARIANTS = [CommitSavepointBody]
 INLINE = [CONN + '.new_oid']
